@@ -15,6 +15,24 @@ CLAIMS = {
         ref="3/C19"),
 }
 
+CLAIMS.update({
+    "C11": dict(
+        text="Static, exact: the full role x variant table of send(), the compile-time Sendable impl matrix (from the compiler's impl tables) and the per-handler status x need_store x offline_publish x QoS state table are extracted from MIR and compared cell by cell with the MQTT role/state tables; refusal paths' write sets are checked to be empty up to id release / undo. Whole statement, exhaustive over the finite matrix.",
+        note=TB + "Role atoms are TypeId comparisons / RoleType consts evaluated by the compiler. Known finding F11 (alias table written before a Receive-Maximum refusal) listed in known_findings.jsonl.",
+        technique="MIR abstract interpretation: exact decision-table extraction vs transcribed MQTT tables; trait impl table comparison",
+        ref="3/C11"),
+    "C17": dict(
+        text="Static, exact: the 144-cell role x version x packet-type receive table (gate + dispatch) is extracted from process_recv_packet and compared with the MQTT table; CONNECT/CONNACK handlers are explored with status=Connected at entry (protocol error, no session-field write); version adoption is shown to assign protocol_version and enter the fixed-version handler with no other write, and protocol_version has no other writer (field-equality argument). Whole statement.",
+        note=TB + "Behavioural equality after adoption rests on the field-equality argument (behaviour is a function of fields + inputs).",
+        technique="MIR abstract interpretation: exact table extraction + who-may-write scan",
+        ref="3/C17"),
+    "C15": dict(
+        text="Static: armed-flag <=> event-stream invariant on every path of every handler/public method; all flags false after close/DISCONNECT/refusing CONNACK; no send-side arming while possibly Disconnected; exact decision tables for interval priority and expiry effects; server refresh before every delivery. Per-step obligations of the statement; history-level 're-arms after every packet' is reduced to these.",
+        note=TB + "Flag fields are discovered (field assigned true on every Reset(K) path), not named.",
+        technique="MIR abstract interpretation: inductive flag invariant + exit valuations + decision tables",
+        ref="3/C15"),
+})
+
 NOT_APPLICABLE = {
     "C20": "Refinement of a set model over all operation sequences plus the sorted/disjoint/merged representation invariant of a BTreeSet<ValueInterval> with a non-standard Ord: needs an inductive data-structure invariant no static abstract domain in reach expresses; a syntactic proxy would fire on behaviour-preserving rewrites. The out-of-range query clause is decided under C08-R5.",
 }
